@@ -238,3 +238,28 @@ def values_equal(a, b):
     if isinstance(a, Doc):
         return str(a) == str(b) and getattr(a, "lang", None) == getattr(b, "lang", None)
     return a == b
+
+
+def json_dict_file_codec():
+    """A user file codec that stores dict results as JSON text (dicts otherwise fall back to the pickle codec)."""
+    import json
+
+    from dds.structures import FileCodecProtocol, ProtocolRef
+    from dds.structures_utils import SupportedTypeUtils
+
+    class JsonDictFileCodec(FileCodecProtocol):
+        def ref(self):
+            return ProtocolRef("user.json_dict")
+
+        def handled_types(self):
+            return [SupportedTypeUtils.from_type(dict)]
+
+        def serialize_into(self, blob, loc):
+            with open(str(loc), "w", encoding="utf-8") as f:
+                json.dump(blob, f)
+
+        def deserialize_from(self, loc):
+            with open(str(loc), "r", encoding="utf-8") as f:
+                return json.load(f)
+
+    return JsonDictFileCodec()
